@@ -111,7 +111,8 @@ func prepareRanking(ranking [][]model.AlternativeResult) *model.AlternativesRank
 	for _, equivalentEntries := range ranking {
 		var sameAlternativesId []string
 		for i, r := range equivalentEntries {
-			var thisAlternativeWorse = worseOneLevelThanCurrent
+			thisAlternativeWorse := make([]string, len(worseOneLevelThanCurrent), len(worseOneLevelThanCurrent)+len(equivalentEntries))
+			copy(thisAlternativeWorse, worseOneLevelThanCurrent)
 			sameAlternativesId = append(sameAlternativesId, r.Alternative.Id)
 			for j, a := range equivalentEntries {
 				if i != j {
